@@ -10,8 +10,13 @@ What is modelled
 * `NewPlan`/`Fn.compile`/`evalValue` (`newPlan`, `compileArg`), `evalArg` (`eval`), `Plan.Execute` with
   its deferred `recover` (`execute`), `Fn.Simplify` (`simplify`);
 * the functions of `modelledFns` (arithmetic, comparison, logic, `cond`, get/set/del, `each`, `at`,
-  `root`, `asm`, `quote`, `list`, `nth`, `size`, the type predicates); a call of any other registered
-  function (`unmodelledFns`) makes the whole run `unmodelled`;
+  `root`, `asm`, `quote`, `list`, `nth`, `size`, the type predicates; since round 3 the text and conversion
+  functions `tolower toupper title trim replace split substr join int float string` — one evaluator
+  `fnScalar` over per-function records, Asm/Data.lean — and the list functions `reverse append include
+  sort`); a call of one of the four other registered functions (`unmodelledFns`: `inspect`, `time`,
+  `time?`, `zone` — stdout, the clock, the zone database) makes the whole run `unmodelled`; so do, inside
+  the modelled functions: non-ASCII text, `string` with a format or of a list/map, `float` of a text that is
+  not 1–15 digits, `int` of a float outside int64, `sort` of more than 12 elements;
 * JSONPath arguments: ONLY `$`/`@` followed by member names (`.name`), indexes (`[n]`) and a final
   wildcard (`.*`, for reading only). Any other path text makes the run `unmodelled`; the general
   JSONPath engine (jp.Get/First/Set) is outside this model.
